@@ -151,7 +151,7 @@ package main
 //@   loop 2 (userPubKeyFP string, rangeindex int) invariant (forall j int :: 0 <= j && j <= rangeindex ==> userPubKeyFP != state.Config.DenyTrustData.KeyDenyFPsshSha256[j])  #C06.km-deny-scan @C06
 //@ func (*RuntimeState).getUsernameIfIPRestricted
 //@   results user, notBefore, userErr, err
-//@   requires len(VerifiedChains) > 0 && len(VerifiedChains[0]) > 0
+//@   requires len(VerifiedChains) > 0 && len(VerifiedChains[0]) > 0 && VerifiedChains[0][0] != nil
 //@   reveal ipCertUser deniedFP
 //@   ensures userErr == nil && err == nil ==> ipCertUser(state, VerifiedChains, r.RemoteAddr, user)            #C06.ip-cert @C06,C11
 //@   loop 1 (userPubKeyFP string, rangeindex int) invariant (forall j int :: 0 <= j && j <= rangeindex ==> userPubKeyFP != state.Config.DenyTrustData.KeyDenyFPsshSha256[j])  #C06.ip-deny-scan @C06
